@@ -11,6 +11,7 @@ of Lib.Monitor is equivalent to the sequential model run in release order.
 import Gossamer.Model.C35
 import Gossamer.Lib.Monitor
 namespace Gossamer.C35
+open Gossamer
 
 /-! ### list helpers -/
 
@@ -922,6 +923,123 @@ theorem C35_evicts_lru (cap : Nat) (hcap : cap < 2 ^ 63) (ops : List Op) (k v : 
 
 /-- non-vacuity: a full cache of capacity 2 with history put 1, put 2, get 1 — putting 3 evicts 2 -/
 example : (abs (put (run (new 2) [.put 1 5, .put 2 6, .get 1]).2 3 7)).keys = [3, 1] := by decide
+
+/-! ### the trie-cache wrapper (pkg/trie/cache/inmemory/trie_cache.go) -/
+
+theorem natOfBE_lt' (b : Bytes) : natOfBE b < 256 ^ b.length := by
+  induction b with
+  | nil => simp [natOfBE]
+  | cons x xs ih =>
+    rw [natOfBE_cons, List.length_cons, Nat.pow_succ]
+    have hx := x.toNat_lt
+    have : x.toNat * 256 ^ xs.length ≤ 255 * 256 ^ xs.length := Nat.mul_le_mul_right _ (by omega)
+    omega
+
+theorem natOfBE_inj_len : ∀ (a b : Bytes), a.length = b.length → natOfBE a = natOfBE b → a = b := by
+  intro a
+  induction a with
+  | nil => intro b hl _; cases b with
+    | nil => rfl
+    | cons _ _ => cases hl
+  | cons x xs ih =>
+    intro b hl he
+    cases b with
+    | nil => cases hl
+    | cons y ys =>
+      have hl' : xs.length = ys.length := by simpa using hl
+      rw [natOfBE_cons, natOfBE_cons, hl'] at he
+      have h1 := natOfBE_lt' xs
+      have h2 := natOfBE_lt' ys
+      rw [hl'] at h1
+      have hpos : 0 < 256 ^ ys.length := Nat.pow_pos (by omega)
+      have hxy : x.toNat = y.toNat := by
+        rcases Nat.lt_trichotomy x.toNat y.toNat with h | h | h
+        · have : (x.toNat + 1) * 256 ^ ys.length ≤ y.toNat * 256 ^ ys.length := Nat.mul_le_mul_right _ h
+          rw [Nat.add_mul] at this; omega
+        · exact h
+        · have : (y.toNat + 1) * 256 ^ ys.length ≤ x.toNat * 256 ^ ys.length := Nat.mul_le_mul_right _ h
+          rw [Nat.add_mul] at this; omega
+      have hr : natOfBE xs = natOfBE ys := by rw [hxy] at he; omega
+      have := ih ys hl' hr
+      have hx : x = y := UInt8.toNat_inj.mp hxy
+      rw [this, hx]
+
+/-- distinct byte strings are distinct cache keys (and `nil` = 0 is not a code) -/
+theorem encBytes_injective (a b : Bytes) (h : encBytes a = encBytes b) : a = b := by
+  unfold encBytes at h
+  rw [natOfBE_cons, natOfBE_cons] at h
+  have ha := natOfBE_lt' a
+  have hb := natOfBE_lt' b
+  have hlen : a.length = b.length := by
+    rcases Nat.lt_trichotomy a.length b.length with hl | hl | hl
+    · have : 256 ^ (a.length + 1) ≤ 256 ^ b.length := Nat.pow_le_pow_right (by omega) hl
+      rw [Nat.pow_succ] at this
+      have : UInt8.toNat 1 = 1 := rfl
+      simp only [this, Nat.one_mul] at h
+      omega
+    · exact hl
+    · have : 256 ^ (b.length + 1) ≤ 256 ^ a.length := Nat.pow_le_pow_right (by omega) hl
+      rw [Nat.pow_succ] at this
+      have : UInt8.toNat 1 = 1 := rfl
+      simp only [this, Nat.one_mul] at h
+      omega
+  apply natOfBE_inj_len a b hlen
+  rw [hlen] at h
+  omega
+
+theorem encBytes_pos (a : Bytes) : 0 < encBytes a := by
+  unfold encBytes
+  rw [natOfBE_cons]
+  have : UInt8.toNat 1 = 1 := rfl
+  have hp : 0 < 256 ^ a.length := Nat.pow_pos (by omega)
+  simp only [this, Nat.one_mul]
+  omega
+
+theorem trun_refines (ops : List TOp) : ∀ (t : TrieCache) (u : TSpec), Inv t.node →
+    t.node.capacity < 2 ^ 63 → abs t.node = u.node → t.value = u.value →
+    (trun t ops).1 = (tsrun u ops).1 := by
+  induction ops with
+  | nil => intro t u _ _ _ _; rfl
+  | cons op ops ih =>
+    intro t u hI hc ha hv
+    simp only [trun, tsrun]
+    cases op with
+    | setn k v =>
+      have h := put_refines hI hc (encBytes k) (encBytes v)
+      simp only [tstep, tsstep]
+      have := ih { node := put t.node (encBytes k) (encBytes v), value := t.value }
+        { node := sput u.node (encBytes k) (encBytes v), value := u.value } h.2
+        (by show (put t.node _ _).capacity < _; rw [put_capacity]; exact hc)
+        (by show abs (put t.node _ _) = _; rw [h.1, ha]) hv
+      rw [this]
+    | getn k =>
+      have h := get_refines hI (encBytes k)
+      simp only [tstep, tsstep]
+      have := ih { node := (get t.node (encBytes k)).2, value := t.value }
+        { node := (sget u.node (encBytes k)).2, value := u.value } h.2.2
+        (by show (get t.node _).2.capacity < _; rw [get_capacity]; exact hc)
+        (by show abs (get t.node _).2 = _; rw [h.2.1, ha]) hv
+      rw [this, h.1, ha]
+    | setv k v =>
+      simp only [tstep, tsstep]
+      have := ih { node := t.node, value := mapSet t.value (encBytes k) (encBytes v) }
+        { node := u.node, value := mapSet u.value (encBytes k) (encBytes v) } hI hc ha (by show mapSet _ _ _ = _; rw [hv])
+      rw [this]
+    | getv k =>
+      simp only [tstep, tsstep]
+      rw [ih t u hI hc ha hv, hv]
+
+/-- **C35_triecache_refines.**  The wrapper `TrieInMemoryCache` (node capacity `cap` < 2^63)
+    returns, for every sequence of SetNode / GetNode / SetValue / GetValue, what a
+    capacity-bounded recency list and a map keyed by the BYTES of the key at call time return.
+    Keys are values (`encBytes` is injective): nothing the caller later does to the buffer it
+    passed can change any answer.  (Value cache: below its byte budget, see Model.) -/
+theorem C35_triecache_refines (cap : Nat) (hcap : cap < 2 ^ 63) (ops : List TOp) :
+    (trun (tnew cap) ops).1 = (tsrun (tsnew cap) ops).1 :=
+  trun_refines ops (tnew cap) (tsnew cap) (inv_new cap) (new_capacity_lt hcap) rfl rfl
+
+example : (trun (tnew 2) [.setn [10] [1], .setn [11] [2], .getn [10], .setn [12] [], .getn [11], .getn [12]]).1
+    = [0, 0, encBytes [1], 0, 0, encBytes []] := by decide
 
 /-! ### concurrent part: lock table + monitor theorem -/
 
